@@ -24,20 +24,20 @@ open KcpVerif KcpVerif.Kcp KcpVerif.Fec KcpVerif.FecOwn KcpVerif.Own KcpVerif.Po
 
 /-- several cores and decoders on one pool; the `gh` fields of the components are not used, the
 ghost state is the system's -/
-structure Sys where
+structure PoolSys where
   cores   : List KcpO := []
   decs    : List DecO := []
   pending : List Nat := []      -- recovered buffers a decoder has returned and the caller has not yet released
   gh      : Ghost := {}
 
-inductive SysOp where
+inductive PoolSysOp where
   | core (i : Nat) (op : Kcp.Op)              -- an operation of core `i`
   | decode (j : Nat) (inp : Fec.Bytes)        -- decoder `j` decodes; what it returns becomes pending
   | release                                    -- the caller reads and recycles the oldest pending buffer
   | newCore (conv snd0 rcv0 : U32)
   | newDec (dec : Decoder)                     -- a decoder that stores nothing yet
 
-def sysStep (C : CodecNew) (s : Sys) : SysOp → Sys
+def sysStep (C : CodecNew) (s : PoolSys) : PoolSysOp → PoolSys
   | .core i op =>
     match s.cores[i]? with
     | some o => { s with cores := s.cores.set i (stepO { o with gh := s.gh } op),
@@ -56,33 +56,33 @@ def sysStep (C : CodecNew) (s : Sys) : SysOp → Sys
   | .newCore c a b => { s with cores := s.cores ++ [startO c a b] }
   | .newDec dec => if dec.sets.isEmpty then { s with decs := s.decs ++ [startD dec] } else s
 
-def sysRun (C : CodecNew) (s : Sys) (ops : List SysOp) : Sys := ops.foldl (sysStep C) s
+def sysRun (C : CodecNew) (s : PoolSys) (ops : List PoolSysOp) : PoolSys := ops.foldl (sysStep C) s
 
-def sumC (id : Nat) : List KcpO → Nat
+def c15SumC (id : Nat) : List KcpO → Nat
   | [] => 0
-  | o :: l => held o id + sumC id l
+  | o :: l => held o id + c15SumC id l
 
-def sumD (id : Nat) : List DecO → Nat
+def c15SumD (id : Nat) : List DecO → Nat
   | [] => 0
-  | d :: l => cntS id d.sets + sumD id l
+  | d :: l => cntS id d.sets + c15SumD id l
 
 /-- number of places of the whole system that hold buffer `id` -/
-def total (s : Sys) (id : Nat) : Nat := sumC id s.cores + sumD id s.decs + cntI id s.pending
+def c15Total (s : PoolSys) (id : Nat) : Nat := c15SumC id s.cores + c15SumD id s.decs + cntI id s.pending
 
-structure SysInv (s : Sys) : Prop where
+structure PoolSysInv (s : PoolSys) : Prop where
   cores : ∀ o ∈ s.cores, Sync o
   decs  : ∀ d ∈ s.decs, d.dec.sets = erSets d.sets
-  w     : W s.gh (total s)
+  w     : W s.gh (c15Total s)
 
-theorem C15_aux_sumC_append (id : Nat) (a b : List KcpO) : sumC id (a ++ b) = sumC id a + sumC id b := by
+theorem C15_aux_sumC_append (id : Nat) (a b : List KcpO) : c15SumC id (a ++ b) = c15SumC id a + c15SumC id b := by
   induction a with
-  | nil => simp [sumC]
-  | cons x a ih => simp only [List.cons_append, sumC, ih]; omega
+  | nil => simp [c15SumC]
+  | cons x a ih => simp only [List.cons_append, c15SumC, ih]; omega
 
-theorem C15_aux_sumD_append (id : Nat) (a b : List DecO) : sumD id (a ++ b) = sumD id a + sumD id b := by
+theorem C15_aux_sumD_append (id : Nat) (a b : List DecO) : c15SumD id (a ++ b) = c15SumD id a + c15SumD id b := by
   induction a with
-  | nil => simp [sumD]
-  | cons x a ih => simp only [List.cons_append, sumD, ih]; omega
+  | nil => simp [c15SumD]
+  | cons x a ih => simp only [List.cons_append, c15SumD, ih]; omega
 
 theorem C15_aux_cntI_append (id : Nat) (a b : List Nat) : cntI id (a ++ b) = cntI id a + cntI id b := by
   induction a with
@@ -104,7 +104,7 @@ theorem C15_aux_split {α : Type} {l : List α} {i : Nat} {x : α} (h : l[i]? = 
       obtain ⟨a, b, h1, h2⟩ := ih h
       exact ⟨z :: a, b, by rw [h1]; rfl, fun y => by rw [List.set_cons_succ, h2]; rfl⟩
 
-theorem C15_aux_sys_step (C : CodecNew) {s : Sys} (h : SysInv s) (op : SysOp) : SysInv (sysStep C s op) := by
+theorem C15_aux_sys_step (C : CodecNew) {s : PoolSys} (h : PoolSysInv s) (op : PoolSysOp) : PoolSysInv (sysStep C s op) := by
   cases op with
   | core i op =>
     simp only [sysStep]
@@ -112,9 +112,9 @@ theorem C15_aux_sys_step (C : CodecNew) {s : Sys} (h : SysInv s) (op : SysOp) : 
     · rename_i o ho
       obtain ⟨a, b, hl, hset⟩ := C15_aux_split ho
       have hso : Sync o := h.cores o (by rw [hl]; simp)
-      have hin : OwnInvF (fun id => sumC id a + sumC id b + sumD id s.decs + cntI id s.pending) { o with gh := s.gh } :=
+      have hin : OwnInvF (fun id => c15SumC id a + c15SumC id b + c15SumD id s.decs + cntI id s.pending) { o with gh := s.gh } :=
         ⟨⟨hso.sq, hso.sb, hso.rb, hso.rq⟩, h.w.congr (fun id => by
-          unfold total; rw [hl, C15_aux_sumC_append]; simp only [sumC]
+          unfold c15Total; rw [hl, C15_aux_sumC_append]; simp only [c15SumC]
           show held o id + _ = _
           omega)⟩
       have hout := C15_aux_inv_step hin op
@@ -127,9 +127,9 @@ theorem C15_aux_sys_step (C : CodecNew) {s : Sys} (h : SysInv s) (op : SysOp) : 
           · exact hout.sync
           · exact h.cores x (by rw [hl]; exact List.mem_append_right _ (List.mem_cons_of_mem _ hx))
       · refine hout.w.congr (fun id => ?_)
-        unfold total
+        unfold c15Total
         simp only []
-        rw [hset, C15_aux_sumC_append]; simp only [sumC]
+        rw [hset, C15_aux_sumC_append]; simp only [c15SumC]
         omega
     · exact h
   | decode j inp =>
@@ -138,8 +138,8 @@ theorem C15_aux_sys_step (C : CodecNew) {s : Sys} (h : SysInv s) (op : SysOp) : 
     · rename_i d hd
       obtain ⟨a, b, hl, hset⟩ := C15_aux_split hd
       have hsd : d.dec.sets = erSets d.sets := h.decs d (by rw [hl]; simp)
-      have hin : W s.gh (fun id => cntS id d.sets + (sumC id s.cores + sumD id a + sumD id b + cntI id s.pending)) :=
-        h.w.congr (fun id => by unfold total; rw [hl, C15_aux_sumD_append]; simp only [sumD]; omega)
+      have hin : W s.gh (fun id => cntS id d.sets + (c15SumC id s.cores + c15SumD id a + c15SumD id b + cntI id s.pending)) :=
+        h.w.congr (fun id => by unfold c15Total; rw [hl, C15_aux_sumD_append]; simp only [c15SumD]; omega)
       have hout := decodeO_W C { d with gh := s.gh } inp _ hin
       refine ⟨h.cores, ?_, ?_⟩
       · intro x hx
@@ -151,18 +151,18 @@ theorem C15_aux_sys_step (C : CodecNew) {s : Sys} (h : SysInv s) (op : SysOp) : 
             rw [e.1]; exact e.2.2.2
           · exact h.decs x (by rw [hl]; exact List.mem_append_right _ (List.mem_cons_of_mem _ hx))
       · refine hout.congr (fun id => ?_)
-        unfold total
+        unfold c15Total
         simp only []
-        rw [hset, C15_aux_sumD_append, C15_aux_cntI_append]; simp only [sumD]
+        rw [hset, C15_aux_sumD_append, C15_aux_cntI_append]; simp only [c15SumD]
         omega
     · exact h
   | release =>
     simp only [sysStep]
     split
     · rename_i id rest hp
-      have hin : W s.gh (fun x => oc (some id) x + (sumC x s.cores + sumD x s.decs + cntI x rest)) :=
-        h.w.congr (fun x => by unfold total; rw [hp]; simp only [cntI]; omega)
-      exact ⟨h.cores, h.decs, hin.use.recycle.congr (fun x => by unfold total; simp only [])⟩
+      have hin : W s.gh (fun x => oc (some id) x + (c15SumC x s.cores + c15SumD x s.decs + cntI x rest)) :=
+        h.w.congr (fun x => by unfold c15Total; rw [hp]; simp only [cntI]; omega)
+      exact ⟨h.cores, h.decs, hin.use.recycle.congr (fun x => by unfold c15Total; simp only [])⟩
     · exact h
   | newCore c a b =>
     refine ⟨?_, h.decs, ?_⟩
@@ -171,10 +171,10 @@ theorem C15_aux_sys_step (C : CodecNew) {s : Sys} (h : SysInv s) (op : SysOp) : 
       · exact h.cores x hx
       · rw [List.mem_singleton.1 hx]; exact ⟨rfl, rfl, rfl, rfl⟩
     · refine h.w.congr (fun id => ?_)
-      show sumC id (s.cores ++ [startO c a b]) + sumD id s.decs + cntI id s.pending = total s id
+      show c15SumC id (s.cores ++ [startO c a b]) + c15SumD id s.decs + cntI id s.pending = c15Total s id
       rw [C15_aux_sumC_append]
-      unfold total
-      have : sumC id [startO c a b] = 0 := rfl
+      unfold c15Total
+      have : c15SumC id [startO c a b] = 0 := rfl
       omega
   | newDec dec =>
     simp only [sysStep]
@@ -188,34 +188,34 @@ theorem C15_aux_sys_step (C : CodecNew) {s : Sys} (h : SysInv s) (op : SysOp) : 
           show dec.sets = []
           exact List.isEmpty_iff.1 he
       · refine h.w.congr (fun id => ?_)
-        show sumC id s.cores + sumD id (s.decs ++ [startD dec]) + cntI id s.pending = total s id
+        show c15SumC id s.cores + c15SumD id (s.decs ++ [startD dec]) + cntI id s.pending = c15Total s id
         rw [C15_aux_sumD_append]
-        unfold total
-        have : sumD id [startD dec] = 0 := rfl
+        unfold c15Total
+        have : c15SumD id [startD dec] = 0 := rfl
         omega
     · exact h
 
-theorem C15_aux_sys_run (C : CodecNew) {s : Sys} (h : SysInv s) (ops : List SysOp) : SysInv (sysRun C s ops) := by
+theorem C15_aux_sys_run (C : CodecNew) {s : PoolSys} (h : PoolSysInv s) (ops : List PoolSysOp) : PoolSysInv (sysRun C s ops) := by
   induction ops generalizing s with
   | nil => exact h
   | cons op ops ih => exact ih (C15_aux_sys_step C h op)
 
-theorem C15_aux_sys_init : SysInv {} :=
+theorem C15_aux_sys_init : PoolSysInv {} :=
   ⟨fun _ h => (by cases h), fun _ h => (by cases h), W.init.congr (fun _ => rfl)⟩
 
 /-- **Cores, decoders and their callers on one pool are disciplined**: for every schedule of
 operations (with arbitrary arguments) of any number of cores and decoders created along the way,
 the one log of pool events is `Disciplined` — recycled at most once per acquisition, never used
 after being recycled, never handed out while owned. -/
-theorem C15_sys_disciplined (C : CodecNew) (ops : List SysOp) : Disciplined (sysRun C {} ops).gh.log :=
+theorem C15_sys_disciplined (C : CodecNew) (ops : List PoolSysOp) : Disciplined (sysRun C {} ops).gh.log :=
   (C15_sanitizer_sound _).mp (C15_aux_sys_run C C15_aux_sys_init ops).w.ok
 
 /-- **One holder in the whole system**: a buffer is held at no more than one place — a queue
 position of one core, a shard set of one decoder, or the caller's recovered list — and whatever is
 held is owned (not in the pool).  Two sessions never share a buffer. -/
-theorem C15_sys_held (C : CodecNew) (ops : List SysOp) (id : Nat) :
-    total (sysRun C {} ops) id ≤ 1 ∧
-    (total (sysRun C {} ops) id = 1 → holds (sysRun C {} ops).gh.log.reverse id = true) := by
+theorem C15_sys_held (C : CodecNew) (ops : List PoolSysOp) (id : Nat) :
+    c15Total (sysRun C {} ops) id ≤ 1 ∧
+    (c15Total (sysRun C {} ops) id = 1 → holds (sysRun C {} ops).gh.log.reverse id = true) := by
   have hw := (C15_aux_sys_run C C15_aux_sys_init ops).w
   have hag := C15_aux_replay_agree _ St.init [] C15_aux_agree_init hw.ok
   rw [List.append_nil] at hag
@@ -235,66 +235,66 @@ sessions run concurrently, so their pool events interleave more finely than whol
 reordering that keeps the order of every single buffer's events keeps the discipline. -/
 
 /-- the buffer an event is about -/
-def evId : Ev → Nat
+def c15EvId : Ev → Nat
   | .get id => id
   | .put id => id
   | .use id => id
 
 /-- the events of one buffer, in order -/
-def proj (id : Nat) (l : List Ev) : List Ev := l.filter (fun e => evId e == id)
+def c15Proj (id : Nat) (l : List Ev) : List Ev := l.filter (fun e => c15EvId e == id)
 
-theorem C15_aux_holds_proj (h : List Ev) (id : Nat) : holds (proj id h) id = holds h id := by
+theorem C15_aux_holds_proj (h : List Ev) (id : Nat) : holds (c15Proj id h) id = holds h id := by
   induction h with
   | nil => rfl
   | cons e h ih =>
-    unfold proj at ih ⊢
+    unfold c15Proj at ih ⊢
     rw [List.filter_cons]
     cases e with
     | get j =>
       by_cases hj : j = id
-      · subst hj; simp [evId, holds]
-      · have : (evId (.get j) == id) = false := by simp [evId, hj]
+      · subst hj; simp [c15EvId, holds]
+      · have : (c15EvId (.get j) == id) = false := by simp [c15EvId, hj]
         rw [this]; simp only [Bool.false_eq_true, if_false, holds, hj]; exact ih
     | put j =>
       by_cases hj : j = id
-      · subst hj; simp [evId, holds]
-      · have : (evId (.put j) == id) = false := by simp [evId, hj]
+      · subst hj; simp [c15EvId, holds]
+      · have : (c15EvId (.put j) == id) = false := by simp [c15EvId, hj]
         rw [this]; simp only [Bool.false_eq_true, if_false, holds, hj]; exact ih
     | use j =>
       by_cases hj : j = id
-      · subst hj; simp only [evId, beq_self_eq_true, if_true, holds]; exact ih
-      · have : (evId (.use j) == id) = false := by simp [evId, hj]
+      · subst hj; simp only [c15EvId, beq_self_eq_true, if_true, holds]; exact ih
+      · have : (c15EvId (.use j) == id) = false := by simp [c15EvId, hj]
         rw [this]; simp only [Bool.false_eq_true, if_false, holds]; exact ih
 
-theorem C15_aux_okAt_proj (h : List Ev) (e : Ev) : okAt (proj (evId e) h) e = okAt h e := by
-  cases e <;> simp only [okAt, evId, C15_aux_holds_proj]
+theorem C15_aux_okAt_proj (h : List Ev) (e : Ev) : okAt (c15Proj (c15EvId e) h) e = okAt h e := by
+  cases e <;> simp only [okAt, c15EvId, C15_aux_holds_proj]
 
 /-- **Per-buffer characterisation**: a log is disciplined iff, for every buffer, the sub-log of that
 buffer's own events is. -/
-theorem C15_disciplined_per_buffer (l : List Ev) : Disciplined l ↔ ∀ id, Disciplined (proj id l) := by
+theorem C15_disciplined_per_buffer (l : List Ev) : Disciplined l ↔ ∀ id, Disciplined (c15Proj id l) := by
   constructor
   · intro hd id p e r hl
-    unfold proj at hl
+    unfold c15Proj at hl
     obtain ⟨l₁, l₂, h1, h2, h3⟩ := List.filter_eq_append_iff.1 hl
     obtain ⟨m₁, m₂, h4, h5, h6, _⟩ := List.filter_eq_cons_iff.1 h3
-    have hid : evId e = id := by simpa using h6
+    have hid : c15EvId e = id := by simpa using h6
     have hok := hd (l₁ ++ m₁) e m₂ (by rw [h1, h4, List.append_assoc])
     rw [← C15_aux_okAt_proj, hid] at hok
-    have hp : proj id (l₁ ++ m₁).reverse = p.reverse := by
-      unfold proj
+    have hp : c15Proj id (l₁ ++ m₁).reverse = p.reverse := by
+      unfold c15Proj
       rw [List.filter_reverse, List.filter_append, h2]
-      have : List.filter (fun e => evId e == id) m₁ = [] := List.filter_eq_nil_iff.2 h5
+      have : List.filter (fun e => c15EvId e == id) m₁ = [] := List.filter_eq_nil_iff.2 h5
       rw [this, List.append_nil]
     rw [hp] at hok
     exact hok
   · intro hd p e r hl
-    have h1 : proj (evId e) l = proj (evId e) p ++ e :: proj (evId e) r := by
-      unfold proj
+    have h1 : c15Proj (c15EvId e) l = c15Proj (c15EvId e) p ++ e :: c15Proj (c15EvId e) r := by
+      unfold c15Proj
       rw [hl, List.filter_append, List.filter_cons]
       simp
-    have hok := hd (evId e) _ e _ h1
-    have hp : (proj (evId e) p).reverse = proj (evId e) p.reverse := by
-      unfold proj; rw [List.filter_reverse]
+    have hok := hd (c15EvId e) _ e _ h1
+    have hp : (c15Proj (c15EvId e) p).reverse = c15Proj (c15EvId e) p.reverse := by
+      unfold c15Proj; rw [List.filter_reverse]
     rw [hp, C15_aux_okAt_proj] at hok
     exact hok
 
@@ -302,7 +302,7 @@ theorem C15_disciplined_per_buffer (l : List Ev) : Disciplined l ↔ ∀ id, Dis
 buffer's own events is disciplined.  With `C15_sys_disciplined`: however the pool events of
 concurrently running operations of different sessions interleave, as long as every buffer sees its
 events in the order of some operation-level schedule, the process's log is disciplined. -/
-theorem C15_disciplined_reorder {l l' : List Ev} (h : ∀ id, proj id l' = proj id l) (hd : Disciplined l) :
+theorem C15_disciplined_reorder {l l' : List Ev} (h : ∀ id, c15Proj id l' = c15Proj id l) (hd : Disciplined l) :
     Disciplined l' := by
   rw [C15_disciplined_per_buffer] at hd ⊢
   intro id; rw [h id]; exact hd id
@@ -314,20 +314,20 @@ example : Disciplined [.get 0, .get 1, .use 1, .use 0, .put 0, .put 1] :=
       · subst h0; decide
       · by_cases h1 : id = 1
         · subst h1; decide
-        · simp [proj, evId, Ne.symm h0, Ne.symm h1])
+        · simp [c15Proj, c15EvId, Ne.symm h0, Ne.symm h1])
     ((C15_sanitizer_sound _).mp (by decide))
 
 /-! ### non-vacuity: two cores and a decoder take turns -/
 
-def exSys : List SysOp :=
+def c15ExSys : List PoolSysOp :=
   [.newCore 7 0 0, .newCore 7 0 0, .newDec ((Decoder.new rsNew 2 1).getD
       { d := 2, p := 1, n := 3, paws := 0, newest := 0, shouldTune := false, tune := AutoTune.Tune.init, sets := [], codec := rsNew 2 1 }),
-   .core 0 (.noDelay 1 10 2 1), .core 0 (.send [1, 2, 3]), .decode 0 exD1, .core 1 (.send [4]),
-   .core 0 (.flush true 10), .decode 0 exPar, .core 1 (.input (exHdr 81 0 0 2 ++ [9, 9]) true false 23),
-   .release, .core 0 (.input (exHdr 82 0 1 0) true false 30), .core 1 (.recv 100)]
+   .core 0 (.noDelay 1 10 2 1), .core 0 (.send [1, 2, 3]), .decode 0 c15ExD1, .core 1 (.send [4]),
+   .core 0 (.flush true 10), .decode 0 c15ExPar, .core 1 (.input (c15ExHdr 81 0 0 2 ++ [9, 9]) true false 23),
+   .release, .core 0 (.input (c15ExHdr 82 0 1 0) true false 30), .core 1 (.recv 100)]
 
 set_option maxRecDepth 100000 in
-example : (sysRun rsNew {} exSys).gh.log =
+example : (sysRun rsNew {} c15ExSys).gh.log =
     [.get 0, .get 1, .get 2, .use 0, .get 3, .use 1, .use 3, .use 1, .use 3, .get 4, .put 1, .put 3, .get 5,
      .use 4, .put 4, .put 0, .use 5, .put 5] := by decide
 
